@@ -133,3 +133,10 @@ Print Assumptions C19_json_default_message.
 Theorem C19_markup_bytes : forall s, mk (Utf8.encode s) = mk s.
 Proof. exact mk_encode. Qed.
 Print Assumptions C19_markup_bytes.
+
+(* the frame statement for the explanation text (instance attribute) *)
+Theorem C19_no_placeholder_expansion_expl : forall b c i, exists R : res frame, forall x,
+  page_text spec_policy b c (with_expl i x) =
+  rmap (fun q => fill q (plug b (esc_apply (b_esc b) x))) R.
+Proof. exact no_placeholder_expansion_expl. Qed.
+Print Assumptions C19_no_placeholder_expansion_expl.
